@@ -5,6 +5,7 @@ package main
 
 import (
 	"bytes"
+	"sync"
 	"fmt"
 	"os"
 	"os/exec"
@@ -26,13 +27,42 @@ func runSelftest(repo, verif string, args []string) int {
 	os.MkdirAll(scratchRoot, 0o755)
 	failed := 0
 	self, _ := os.Executable()
+	var mu sync.Mutex
+	var wg sync.WaitGroup
+	sem := make(chan struct{}, 5)
 	for _, p := range pats {
+		p := p
+		wg.Add(1)
+		go func() {
+			defer wg.Done()
+			sem <- struct{}{}
+			defer func() { <-sem }()
+			if !runOneMutant(p, only, scratchRoot, repo, verif, self) {
+				mu.Lock()
+				failed++
+				mu.Unlock()
+			}
+		}()
+	}
+	wg.Wait()
+	os.RemoveAll(scratchRoot)
+	if failed > 0 {
+		fmt.Printf("selftest: %d mutants not caught\n", failed)
+		return 1
+	}
+	fmt.Println("selftest: all mutants caught")
+	return 0
+}
+
+func runOneMutant(p string, only map[string]bool, scratchRoot, repo, verif, self string) bool {
+	failed := 0
+	for once := true; once; once = false {
 		name := strings.TrimSuffix(filepath.Base(p), ".patch")
 		if filepath.Base(p) == "patch.diff" {
 			name = filepath.Base(filepath.Dir(p))
 		}
 		if len(only) > 0 && !only[name] {
-			continue
+			return true
 		}
 		data, _ := os.ReadFile(p)
 		prop, expect := "", ""
@@ -91,13 +121,7 @@ func runSelftest(repo, verif string, args []string) int {
 		}
 		os.RemoveAll(dir)
 	}
-	os.RemoveAll(scratchRoot)
-	if failed > 0 {
-		fmt.Printf("selftest: %d mutants not caught\n", failed)
-		return 1
-	}
-	fmt.Println("selftest: all mutants caught")
-	return 0
+	return failed == 0
 }
 
 func indent(s string) string { return "     | " + strings.ReplaceAll(s, "\n", "\n     | ") }
